@@ -23,6 +23,11 @@ CHECKS = {
             "All model-valid operation sequences up to the depth bound from two start states are executed on the real engine with reopen cycles; after every reopen tables (rows + definitions) must equal the model and a post-reopen script must succeed.",
             "Bounded: depth 4 (quick) / 5 (thorough); two tables; views/indexes/functions need not survive but must not break reopening; single session.",
             "DESIGN.md §4 C03"),
+    "C04": ("E3-fault-enumerators", "fault_enumeration",
+            "exhaustive crash-point x torn-write-prefix enumeration on the real write path, recovery compared with a reference model",
+            "Each history is executed once with a recorder armed at every persistence step; the database is then recovered from every crash state (every step x every byte prefix of the write in flight; manifest records torn at every byte) and compared with model(acked) / model(acked + interrupted op); a post-recovery script and a second reopen must succeed; crash points of the recovery itself are enumerated one level deep.",
+            "Bounded: 46 (quick) / several hundred (thorough) histories of <= 5 ops on one table; crash model = ordered persistence with a torn in-flight write (directory-entry loss and reordering of unsynced writes not modelled); crash points are the instrumented steps.",
+            "DESIGN.md §3 E3, §4 C04"),
     "C05": ("E2-history-explorer", "model_checking",
             "bounded exhaustive lock-step differential exploration of statement histories, memory engine vs disk engine layouts",
             "Every statement history up to the depth bound followed by a fixed query battery is executed on the memory engine and on each disk layout; outcome classes and results must agree statement by statement.",
@@ -48,6 +53,16 @@ CHECKS = {
             "For each multi-session workload every schedule within the preemption bound is executed; the acknowledged statements must admit a serial order (respecting session order) that reproduces every observed result and the final tables on the reference model; no session or task panics, no deadlock, shutdown and reopen succeed and agree.",
             "Bounded: 2 sessions (quick) / up to 3 (thorough), <= 2 statements each, preemption bound 2/3. The clause about free-running multi-threaded runs is NOT decided (gate interleavings on a current-thread runtime only).",
             "DESIGN.md §3 E4, §4 C10"),
+    "C15": ("E3-fault-enumerators", "fault_enumeration",
+            "exhaustive single-fault injection at every (operator, output item, occurrence) position x {error, panic} of every statement shape",
+            "For each statement shape and engine one fault-free run lists every position at which an operator hands an item (or end of stream) to its consumers; one fault is then injected at every position; the statement must return Err or the complete fault-free answer, and a failed DML must leave the tables unchanged (also after reopen).",
+            "Bounded: 16 statement shapes, 2-3 engine configurations, 2300-row inputs (3 chunks), single faults; faults on the committing DML operator's own output are excluded (after the commit point).",
+            "DESIGN.md §3 E3, §4 C15"),
+    "C18": ("E3-fault-enumerators", "fault_enumeration",
+            "exhaustive byte-level corruption enumeration (bit flips, overwrites, truncations at every offset of every column/index file) with query-sequence oracle",
+            "Every single-byte corruption and every truncation of every data and index file of the victim table is applied to a copy of a closed database; the database is reopened and the query sequences are run; each query must fail or return exactly the original rows, repeated reads included, and the other table must stay readable.",
+            "Bounded: one victim table (3 columns, ~40 rows, several blocks), one bit per byte in the quick tier (all 8 in thorough), corruption while closed; CRC32 as configured by default_for_cli.",
+            "DESIGN.md §3 E3, §4 C18"),
     "C12": ("E2-history-explorer", "model_checking",
             "bounded exhaustive history exploration on the real engine (all op sequences up to depth d x all ORDER BY/LIMIT/OFFSET queries), relational oracle",
             "Every population history up to the depth bound, on every engine/layout of the configuration list, is executed on the real engine and every ORDER BY/LIMIT/OFFSET query of the small query space is judged by the relations the property states (permutation, sortedness, slice, count, membership). Complete within the stated bounds; nothing is sampled.",
